@@ -210,6 +210,18 @@ STRING_CLASSES = [
     "string-non-ascii",
     "string-astral",
 ]
+HOSTILE_CLASSES = {
+    "string-with-quote",
+    "string-with-backslash",
+    "string-with-backslash-escape-lookalike",
+    "string-with-quote-and-backslash",
+    "control-char",
+    "context-key-quote",
+    "context-key-backslash",
+    "context-key-control-char",
+    "number-small-negative-fraction",
+    "temporal",
+}
 BENIGN_STRING_CLASSES = ["string-plain", "string-non-ascii", "string-astral"]
 
 
@@ -689,7 +701,10 @@ class Session:
         resp = self.do(r)
         deployed = self.eval_known and "E" in self.model.evaluators
         mini = self.minimal_echo_log(r) if deployed else None
-        tag = cls if via == "evaluate" else "tck:" + cls
+        # signature class: the hostile feature when there is one, else the shape of the result
+        shape = "list" if dec == "EchoL" else ("context" if dec == "EchoC" else "scalar")
+        base = cls if (cls in HOSTILE_CLASSES or shape == "scalar") else "%s-of-benign-values" % shape
+        tag = base if via == "evaluate" else "tck:" + base
         if cls == "temporal" and via == "evaluate":
             tag = "temporal-bare"
         doc = self.json_of(resp, r, tag, replay_log=mini)
